@@ -126,9 +126,6 @@ def run(chk, replay=None):
 
     # cap per configuration, random configurations, random schedules, probes, preemption bound
     sched_args = [chk.seed] + ([150, 6, 24, 60] if quick else [4000, 40, 300, 700]) + [disc, int(seal_atomic), 2 if quick else 3]
-    if weak:      # the discipline is broken: look harder for the interleaving on which the property fails
-        sched_args[1] *= 2
-        sched_args[4] *= 2
     if replay:
         r = json.load(open(replay))["replay"]
         if "sched_args" in r:
@@ -172,6 +169,7 @@ def run(chk, replay=None):
 
     starts = [i for i, l in enumerate(trace) if l.startswith("init")] + [len(trace)]
     nrej = n_tie = 0
+    found = []            # (priority, what, replay, tags): a returned value that is wrong comes first
     phase = "systematic"
     for si in range(len(starts) - 1):
         a, b = starts[si], starts[si + 1]
@@ -224,15 +222,25 @@ def run(chk, replay=None):
                 n_tie += 1
                 if n_tie == 1:
                     broken.append("the real lock does not behave like the modelled one: " + what)
+                if overlap_only:
+                    continue          # the model is lost for this schedule; the harness oracle still judges the values
                 break
             if overlap_only:
-                kind = "conflicting-critical-sections-overlap"
-                what += ("  — two threads are inside critical sections that touch the same slot / the seal, at least "
-                         "one of them writing: a data race")
-            chk.violation(what, rep, tags={"kind": kind, "step": t[0]})
+                # keep looking in this schedule: a wrong VALUE later on is the stronger evidence
+                later = next((x for x in sch[off + 1:] if " BAD " in x), None)
+                if later is not None:
+                    continue
+                found.append((2, what + "  — two threads are inside critical sections that touch the same slot / the "
+                              "seal, at least one of them writing: a data race", rep,
+                              {"kind": "conflicting-critical-sections-overlap", "step": t[0]}))
+                break
+            found.append((0 if bad else 1, what, rep, {"kind": kind, "step": t[0]}))
             break
         if si % 97 == 0:
             chk.sample({"configuration": head, "schedule": [x for x in sch if not x.startswith("#")][:40]})
+    found.sort(key=lambda x: x[0])
+    for _, what, rep, tags in found[:40]:
+        chk.violation(what, rep, tags=tags)
     for l in trace:
         if l.startswith("single"):
             chk.count("single-thread-witness")
